@@ -202,7 +202,38 @@ func runC05(r *ev.Run) {
 			}
 			r.ViolationAt("case", ci, sig, cfgS+" "+what, map[string]any{"config": cfgS, "schema": fmt.Sprint(schema.types), "history_tail": hh})
 		}
+		var heldQ *hybridQuery
+		var heldB comet.HybridSearch
 		probe := func() {
+			// one long-lived hybrid search object, executed again after the index changed: the same documents as a fresh
+			// object with the same configuration (only with k beyond the corpus, where no tie-break can differ)
+			if heldB != nil && heldQ.K > len(h.docs) {
+				a1, e1 := heldB.Execute()
+				a2, e2 := applyHybridQuery(sut.idx.NewSearch(), *heldQ).Execute()
+				if (e1 != nil) != (e2 != nil) || len(a1) != len(a2) {
+					rep("hybrid.held-search-object-differs", fmt.Sprintf("%s: a search object executed before and again now: %d results / %v; a fresh object: %d / %v", *heldQ, len(a1), e1, len(a2), e2))
+					heldB = nil
+				} else {
+					s2 := map[uint32]bool{}
+					for _, x := range a2 {
+						s2[x.ID] = true
+					}
+					for _, x := range a1 {
+						if !s2[x.ID] {
+							rep("hybrid.held-search-object-differs", fmt.Sprintf("%s: a search object executed before and again now returns id %d, a fresh object does not", *heldQ, x.ID))
+							heldB = nil
+							break
+						}
+					}
+				}
+				r.Count("probes:held-search-object", 1)
+			}
+			if heldB == nil || rng.IntN(6) == 0 {
+				hq := genHybridQuery(rng, h, vg, tg)
+				hq.K = 50
+				heldQ, heldB = &hq, applyHybridQuery(sut.idx.NewSearch(), hq)
+				heldB.Execute()
+			}
 			for t := 0; t < 6+rng.IntN(5); t++ {
 				q := genHybridQuery(rng, h, vg, tg)
 				got, err := applyHybridQuery(sut.idx.NewSearch(), q).Execute()
